@@ -8,6 +8,11 @@ from props import sessprop
 def gen(rnd):
     cfg = [matchgen.matcher(rnd, 1).strip() if rnd.random() < 0.3 else None,
            matchgen.matcher(rnd, 1).strip() if rnd.random() < 0.3 else None, 0, 1, 0]
+    if rnd.random() < 0.15:
+        # start-up matchers that are not literally `*` / `!` but fold to them: the first command must REPLACE them
+        cfg[0] = rnd.choice(['*.*', '*.*()', '*, *', '[*]'])
+    if rnd.random() < 0.1:
+        cfg[1] = rnd.choice(['!', '* ! *', '.x ! *'])
     return sessioncheck.build_case(rnd, n_events=rnd.choice([15, 30]), config=cfg, chatter=0.02,
                                    cmds=lambda r: cmdgen.mixed(r, (5, 4, 1, 0.5, 0.5)), cmd_rate=0.3)
 
